@@ -56,6 +56,7 @@ func main() {
 	}
 	c := NewCollector(*prop, *tier, seed)
 	f(c, *tier, seed)
+	c.DrainRetries()
 	if err := c.RunOracle(*oracle); err != nil {
 		fmt.Fprintln(os.Stderr, err)
 		c.Note("ORACLE-ERROR: %v", err)
